@@ -126,7 +126,7 @@ void vprop_case (VChoices *c, VResult *r)
   if (v_arg ("dump", NULL)) { FILE *f = fopen (v_arg ("dump", NULL), "w"); if (f) { fputs (u.source, f); fclose (f); } }
 
   memset (&ro, 0, sizeof ro);
-  ro.n_max = 70; ro.m_max = 4; ro.placement_mask = 1;
+  ro.n_max = 70; ro.m_max = 4; ro.placement_mask = 1; ro.big_n = 3000; ro.huge_n = 1;
   nruns = 1 + (int) vc_pick (c, 6);
   for (i = 0; i < nruns; i++) {
     Arena ac, ae;
